@@ -40,6 +40,12 @@ def addMonths? (y : Int) (m d : Nat) (n : Int) : Option Date :=
 (both Monday = 0), in 0..6 -/
 def daysBack (wd s : Int) : Int := (wd - s) % 7
 
+/-- a week is the pair (first day, last day) when both exist -/
+def bothDays (first last : Option Date) : Option (Date × Date) :=
+  match first, last with
+  | some a, some b => some (a, b)
+  | _, _ => none
+
 /-! ### n-th weekday of a month -/
 /-- day of month of the n-th (n ≥ 1) weekday `w` (Monday = 0) of month m of year y -/
 def nthWeekdayDay (y : Int) (m : Nat) (w : Int) (n : Nat) : Nat :=
